@@ -79,6 +79,11 @@ def exact_ancilla(inp):
         err = max(np.abs(np.array(a) - b).max() for a, b in zip(dyn.states, ref))
         if err > 1e-10 or len(dyn.states) != n + 1:
             bad.append({'case': label, 'max_error': float(err)})
+        # only the final state recorded: the same joint evolution, controls included
+        fin = oqupy.compute_dynamics(oqupy.System(H), initial_state=rho0, process_tensor=pt, control=ctl, record_all=False, progress_type='silent')
+        errf = float(np.abs(np.array(fin.states[-1]) - ref[-1]).max())
+        if errf > 1e-10 or len(fin.states) != 1:
+            bad.append({'case': label + ' (record_all=False)', 'max_error_of_final_state': errf, 'states_returned': len(fin.states)})
     # the same environment stored in a transformed basis: every combination of in/out transforms
     rng2 = np.random.default_rng(9)
     from oqupy.process_tensor import SimpleProcessTensor
